@@ -358,7 +358,7 @@ pub fn replay_one<P: Prop>(prop: &P, path: &Path, out: &mut std::fs::File) -> i3
             match o.failure {
                 Some(f) => {
                     let _ = writeln!(out, "replay {}: FAILS signature={}", path.display(), f.signature);
-                    let _ = writeln!(out, "detail: {}", truncate_json(&f.detail, 4000));
+                    let _ = writeln!(out, "detail: {}", f.detail);
                     let _ = writeln!(out, "VIOLATION property={} replay={}", prop.id(), path.display());
                     1
                 }
